@@ -141,56 +141,77 @@ def run(ctx, rep):
     rep.assume("equality of output bytes with input bytes at every reference is a run-time matter")
 
 
+def _lookup_units(P, F):
+    """[(unit body, flow)] for find_string and its closures (a helper closure `lookup = |k| primary.get(k).or_else(..)` is a unit of its own)."""
+    root = F.body(SM + "find_string")
+    if root is None:
+        return None, []
+    units = [root]
+    todo = [root.key]
+    while todo:
+        k = todo.pop()
+        for c in F.closures_of(k):
+            units.append(c)
+            todo.append(c.key)
+    return root, units
+
+
+def _lookup_closures(P, units):
+    """keys of closures that perform a primary lookup (calls of them count as lookups in their caller)"""
+    return {u.key for u in units if "{closure" in u.key and any((callee_key(t["f"]) or "").endswith("OffsetMap::get") for _bi, t in P.flow(u).calls())}
+
+
 def _lookup_both_tables(rep, P, F):
     from mir import place_chain
-    b = F.body(SM + "find_string")
-    if b is None:
+    root, units = _lookup_units(P, F)
+    if root is None:
         rep.lost("lookup-both-tables", SM + "find_string")
         return
-    flow = P.flow(b)
-    prim = [(bi, t) for bi, t in flow.calls() if (callee_key(t["f"]) or "").endswith("OffsetMap::get")]
-    rep.floor("lookup-both-tables", "primary lookups in find_string (exact offset, backward search)", len(prim), 2)
-    closures = {c.key: c for c in F.closures_of(SM + "find_string")}
-    for n, (bi, t) in enumerate(prim):
-        dest = t["dest"][0]
-        key_src = {x for x in flow.deep_origins(t["args"][-1]) if x[0] == "call" and (x[1] or "").endswith("::add")}
-        ok, why = False, "the result of the primary lookup is used without an or_else fallback"
-        for bj, tt in flow.calls():
-            if not (callee_key(tt["f"]) or "").endswith("Option::or_else") or not tt["args"]:
+    lcl = _lookup_closures(P, units)
+    rflow = P.flow(root)
+    n_events = sum(1 for _bi, t in rflow.calls() if (callee_key(t["f"]) or "").endswith("OffsetMap::get") or (callee_key(t["f"]) or "") in lcl)
+    rep.floor("lookup-both-tables", "lookups in find_string (exact offset, backward search)", n_events, 2)
+    n = 0
+    for b in units:
+        flow = P.flow(b)
+        closures = {c.key: c for c in F.closures_of(b.key)}
+        for bi, t in flow.calls():
+            if not (callee_key(t["f"]) or "").endswith("OffsetMap::get"):
                 continue
-            if not any(x[0] == "call" and x[2] == bi for x in flow.origins(tt["args"][0])):
-                continue
-            # the closure passed as fallback
-            ck = None
-            cap_src = set()
-            for x in flow.origins(tt["args"][1]):
-                if x[0] == "agg" and str(x[1]) in closures:
-                    ck = closures[str(x[1])]
-            for x in flow.deep_origins(tt["args"][1]):
-                if x[0] == "call" and (x[1] or "").endswith("::add"):
-                    cap_src.add(x)
-            if ck is None:
-                why = "or_else fallback is not a closure of find_string"
-                continue
-            f2 = P.flow(ck)
-            over = False
-            for bk, t3 in f2.calls():
-                if (callee_key(t3["f"]) or "").endswith("HashMap::get") and "overflowed_string_offsets" in place_chain(f2, t3["args"][0])[0]:
-                    over = True
-            same_key = bool(key_src) and key_src <= cap_src
-            ok = over and same_key
-            why = ("falls back to overflowed_string_offsets under the same key" if ok else
-                   f"fallback closure consults overflow table: {over}; same key as the primary lookup: {same_key}")
-        if not ok:
-            # the fallback written in the body itself (match / if let on the primary result)
-            for bk, t3 in flow.calls():
-                if (callee_key(t3["f"]) or "").endswith("HashMap::get") and "overflowed_string_offsets" in place_chain(flow, t3["args"][0])[0]:
-                    k2 = {x for x in flow.deep_origins(t3["args"][-1]) if x[0] == "call" and (x[1] or "").endswith("::add")}
-                    if key_src and key_src <= k2:
-                        ok, why = True, "falls back to overflowed_string_offsets under the same key (in the body)"
-        rep.ob("lookup-both-tables", f"lookup#{n}", ok,
-               why if ok else why + " - a string whose start spilled to the overflow table is not found; the backward search then attributes the reference to an earlier string "
-               "and the pointer lands on unrelated bytes", b.file, t["l"])
+            # what the key derives from: an Add impl call (in the root) or the unit's own parameter (helper closure)
+            key_src = {x for x in flow.deep_origins(t["args"][-1]) if (x[0] == "call" and (x[1] or "").endswith("::add")) or (x[0] == "param" and x[1] >= 2)}
+            ok, why = False, "the result of the primary lookup is used without an or_else fallback"
+            for bj, tt in flow.calls():
+                if not (callee_key(tt["f"]) or "").endswith("Option::or_else") or not tt["args"]:
+                    continue
+                if not any(x[0] == "call" and x[2] == bi for x in flow.origins(tt["args"][0])):
+                    continue
+                ck = None
+                for x in flow.origins(tt["args"][1]):
+                    if x[0] == "agg" and str(x[1]) in closures:
+                        ck = closures[str(x[1])]
+                cap_src = {x for x in flow.deep_origins(tt["args"][1]) if (x[0] == "call" and (x[1] or "").endswith("::add")) or (x[0] == "param" and x[1] >= 2)}
+                if ck is None:
+                    why = "or_else fallback is not a closure defined here"
+                    continue
+                f2 = P.flow(ck)
+                over = any((callee_key(t3["f"]) or "").endswith("HashMap::get") and "overflowed_string_offsets" in place_chain(f2, t3["args"][0])[0] for _bk, t3 in f2.calls())
+                same_key = bool(key_src) and key_src <= cap_src
+                ok = over and same_key
+                why = ("falls back to overflowed_string_offsets under the same key" if ok else
+                       f"fallback closure consults overflow table: {over}; same key as the primary lookup: {same_key}")
+            if not ok:
+                for bk, t3 in flow.calls():
+                    if (callee_key(t3["f"]) or "").endswith("HashMap::get") and "overflowed_string_offsets" in place_chain(flow, t3["args"][0])[0]:
+                        k2 = {x for x in flow.deep_origins(t3["args"][-1]) if (x[0] == "call" and (x[1] or "").endswith("::add")) or (x[0] == "param" and x[1] >= 2)}
+                        if key_src and key_src <= k2:
+                            ok, why = True, "falls back to overflowed_string_offsets under the same key (in the body)"
+            rep.ob("lookup-both-tables", f"lookup#{n}", ok,
+                   why if ok else why + " - a string whose start spilled to the overflow table is not found; the backward search then attributes the reference to an earlier string "
+                   "and the pointer lands on unrelated bytes", b.file, t["l"])
+            n += 1
+    if n == 1 and n_events >= 2:
+        rep.note("find_string performs its lookups through one helper closure, called for the exact offset and in the backward search")
 
 
 def _fallback_distance(rep, P, F):
@@ -200,6 +221,11 @@ def _fallback_distance(rep, P, F):
         rep.lost("fallback-distance", SM + "find_string")
         return
     flow = P.flow(b)
+    _root, _units = _lookup_units(P, F)
+    lcl = _lookup_closures(P, _units)
+
+    def is_lookup(k):
+        return (k or "").endswith("OffsetMap::get") or (k or "") in lcl
     nexts = [bi for bi, t in flow.calls() if (callee_key(t["f"]) or "").endswith("::next")]
     if len(nexts) != 1:
         rep.lost("fallback-distance", f"search loop in find_string ({len(nexts)} iterator steps)")
@@ -219,7 +245,7 @@ def _fallback_distance(rep, P, F):
     keyed = False
     sub_blocks = {bi for bi, _st in subs}
     for bi, t in flow.calls():
-        if (callee_key(t["f"]) or "").endswith("OffsetMap::get"):
+        if is_lookup(callee_key(t["f"])):
             # key = (start + (offset - i)).0 : the Add impl call whose argument is the Sub above
             for x in flow.origins(t["args"][-1]):
                 if x[0] == "call" and (x[1] or "").endswith("::add"):
@@ -243,7 +269,7 @@ def _fallback_distance(rep, P, F):
                 has_add = any(x[0] == "op" and x[1].startswith("Add") for x in o)
                 has_sub = any(x[0] == "op" and (x[1].startswith("Sub") or x[1].startswith("Mul") or x[1].startswith("Sh")) for x in o)
                 consts = [x for x in o if x[0] == "const"]
-                from_lookup = any(x[0] == "call" and ((x[1] or "").endswith("OffsetMap::get") or (x[1] or "").endswith("Option::or_else")) for x in o)
+                from_lookup = any(x[0] == "call" and (is_lookup(x[1]) or (x[1] or "").endswith("Option::or_else")) for x in o)
                 has_sub = has_sub or bool(consts)
                 if has_i and has_add and from_lookup and not has_sub:
                     res_ok = True
